@@ -27,16 +27,35 @@ def sh(cmd, cwd=None, shell=False, timeout=900):
     except subprocess.TimeoutExpired as e:
         return 124, "timeout"
 
+import threading
+GITLOCK = threading.Lock()
+
 def scratch(rev="HEAD"):
     d = tempfile.mkdtemp(prefix="setecseed."); os.rmdir(d)
-    rc, out = sh(["git", "-C", REPO, "worktree", "add", "-q", "--detach", d, rev])
+    with GITLOCK:
+        rc, out = sh(["git", "-C", REPO, "worktree", "add", "-q", "--detach", d, rev])
     assert rc == 0, out
     return d
 
 def drop(d):
-    sh(["git", "-C", REPO, "worktree", "remove", "--force", d]); shutil.rmtree(d, ignore_errors=True)
+    with GITLOCK:
+        sh(["git", "-C", REPO, "worktree", "remove", "--force", d])
+    shutil.rmtree(d, ignore_errors=True)
 
 def vet_all(d):
+    rc, out = sh([os.path.join(VERIF, "bin/setecvet"), "-prop", "all", "-repo", d, "-verif", d + "/.verif-out"])
+    res = {}
+    chunk = []
+    for line in out.splitlines():
+        m = re.match(r"RESULT property=(\S+) exit=(\d+)", line)
+        if m:
+            txt = "\n".join(chunk); chunk = []
+            res[m.group(1)] = {"exit": int(m.group(2)), "rules": sorted(set(re.findall(r"violated (R-[A-Z0-9-]+)", txt))), "undecided": sorted(set(re.findall(r"UNDECIDED property=\S+ rule=(\S+)", txt)))}
+        else:
+            chunk.append(line)
+    if len(res) == len(PROPS):
+        return res
+    # fall back to one process per property (e.g. the checker crashed)
     def one(prop):
         rc, out = sh([os.path.join(VERIF, "bin/setecvet"), "-prop", prop, "-repo", d, "-verif", d + "/.verif-out"])
         rules = sorted(set(re.findall(r"violated (R-[A-Z0-9-]+)", out)))
@@ -96,11 +115,19 @@ def cmd_import(src, prop, name):
 
 def cmd_check(names):
     root = os.path.join(VERIF, "seeded")
-    rows = []
+    todo = []
     for s in sorted(os.listdir(root)):
         if names and s not in names: continue
+        if os.path.exists(os.path.join(root, s, "meta.json")): todo.append(s)
+    with concurrent.futures.ThreadPoolExecutor(max_workers=int(os.environ.get("SEED_JOBS", "6"))) as ex:
+        rows = [r for rs in ex.map(lambda s: check_one(root, s), todo) for r in rs]
+    for r in rows: print("%-12s %s" % r)
+    return 0
+
+def check_one(root, s):
+    rows = []
+    if True:
         mp = os.path.join(root, s, "meta.json")
-        if not os.path.exists(mp): continue
         meta = json.load(open(mp))
         d = scratch()
         try:
@@ -112,7 +139,7 @@ def cmd_check(names):
                 rc, out = sh(["git", "-C", d, "apply", os.path.join(root, s, "patch.diff")])
                 note = " [applied at base %s]" % meta["base"]
             if rc:
-                rows.append((s, "SKIPPED (patch no longer applies)")); continue
+                rows.append((s, "SKIPPED (patch no longer applies)")); return rows
             det = detection(d, meta["property"])
             meta["detection"] = det
             json.dump(meta, open(mp, "w"), indent=1)
@@ -121,8 +148,7 @@ def cmd_check(names):
             rows.append((s, v + note))
         finally:
             drop(d)
-    for r in rows: print("%-12s %s" % r)
-    return 0
+    return rows
 
 if __name__ == "__main__":
     if sys.argv[1] == "import": sys.exit(cmd_import(*sys.argv[2:5]))
